@@ -16,6 +16,14 @@ Definition mon_handles (nres nlive : N) : bool := nres =? nlive.
 Definition mon_quiescent_clean (nres nlive ndropped marker rdv_r rdv_b : N) : bool :=
   (nres =? 0) && (nlive =? 0) && (ndropped =? 0) && negb (marker =? 2) && (rdv_r =? 0) && (rdv_b =? 0).
 
+(** The probe handshake after the disturbance, against the number of slots a new handshake can
+    get ([recl] = free slots + idle sessions, from the snapshot taken just before): 0 = as
+    promised (it succeeded, or nothing was reclaimable and the node may only answer Busy),
+    1 = the known class (exactly one reclaimable slot: a responder-side handshake needs two),
+    2 = violation. *)
+Definition mon_probe (recl : N) (ok : bool) : N :=
+  if ok then 0 else if recl =? 0 then 0 else if recl =? 1 then 1 else 2.
+
 (** the rendezvous slot after every requester is gone *)
 Definition mon_rdv_end (slot : N) : bool := slot =? 0.
 
